@@ -239,12 +239,18 @@ pub struct Token(u64);
 impl Token {
     pub fn new() -> Self {
         crate::rec::TOK_LIVE.fetch_add(1, StdOrdering::SeqCst);
+        if std::env::var("TOKDEBUG").is_ok() {
+            eprintln!("TOK new epoch={}", crate::rec::TOK_EPOCH.load(StdOrdering::SeqCst));
+        }
         Token(crate::rec::TOK_EPOCH.load(StdOrdering::SeqCst))
     }
 }
 
 impl Drop for Token {
     fn drop(&mut self) {
+        if std::env::var("TOKDEBUG").is_ok() {
+            eprintln!("TOK drop created={} now={} panicking={}", self.0, crate::rec::TOK_EPOCH.load(StdOrdering::SeqCst), std::thread::panicking());
+        }
         // tokens of an earlier execution (leaked by a failing one and released later, if ever) do not count
         if self.0 == crate::rec::TOK_EPOCH.load(StdOrdering::SeqCst) {
             crate::rec::TOK_LIVE.fetch_sub(1, StdOrdering::SeqCst);
